@@ -775,6 +775,8 @@ def sc_spec_values(rng):
               '0x1F', '20180911124613.128***+000', '00000001000000.000000:000', '20180911124613.128456|060', '20180911124613.128456+000x',
               '/root/cimv2:C.k=1', 'C.k="a"', 'C', '//host/ns:C.k1=1,k2="x"', 'not a uri', 'x', '1' * 400, '٣', ' ', '\n'):
         S.append(A_str(s))
+    for s in ('a', '', '7', 'ab', 'true', '1.5', 'C.k=1', '20180911124613.128456+000'):
+        S.append({'k': 'char16', 's': common.cps(s)})
     for b in (b'', b'12', b' 7', b'abc', b'\xff\xfe', b'1.5', b'20180911124613.128456+000', b'\xc3\xa9', b'C.k=1'):
         S.append({'k': 'bytes', 's': list(b)})
     for t in INT_TYPES:
@@ -804,6 +806,8 @@ def py_of_sc(a):
     k = a['k']
     if k in ('none', 'bool', 'int', 'float', 'str', 'bytes'):
         return py_of_arg(a)
+    if k == 'char16':
+        return pywbem.Char16(common.from_cps(a['s']))
     if k == 'cimint':
         return int_class(a['ty'])(int(a['v']))
     if k == 'real32':
@@ -856,7 +860,7 @@ def sc_json(o, with_env=False):
     if isinstance(o, float):
         return {'k': 'float', 'b': str(f2b(o))}
     if isinstance(o, str):
-        r = {'k': 'str', 's': common.cps(o)}
+        r = {'k': 'char16' if isinstance(o, pywbem.Char16) else 'str', 's': common.cps(o)}
         if with_env:
             try:
                 r['pf'] = str(f2b(float(o)))
@@ -1002,6 +1006,8 @@ def value_kind(v):
         return 'CIMFloat'
     if isinstance(v, float):
         return 'float'
+    if isinstance(v, pywbem.Char16):
+        return 'Char16'
     if isinstance(v, str):
         return 'str'
     if isinstance(v, bytes):
